@@ -28,14 +28,25 @@ def enclosing_withs(node):
 
 
 def lock_withs(A, func, ctx):
-    """With statements of func whose context manager is the key's FileLock; returns {with node: lock term}."""
+    """With statements of func (and of the private helpers it calls) whose context manager evaluates to the key's
+    FileLock; returns {with node: term of the lock file}."""
+    withs = [n for n, o, s_ in A.nodes_with_sites(func) if isinstance(n, (ast.With, ast.AsyncWith))]
+    exprs = [item.context_expr for w in withs for item in w.items]
+    at = A.sym.terms_at(func, ctx.recv, exprs) if exprs else {}
     out = {}
-    for n in A.typer.own_nodes(func):
-        if isinstance(n, (ast.With, ast.AsyncWith)):
-            for item in n.items:
-                e = subst_single_assign(A, func, item.context_expr)
-                if isinstance(e, ast.Call) and src(e.func).split('.')[-1] in ('FileLock', 'SoftFileLock'):
-                    out[n] = A.sym.expr_term(e.args[0], ctx) if e.args else None
+    for w in withs:
+        for item in w.items:
+            for t in at.get(id(item.context_expr), []):
+                if t[0] == 'call' and t[1].split('.')[-1] in ('FileLock', 'SoftFileLock') and t[2]:
+                    out[w] = t[2][0]
+    return out
+
+
+def held_withs(node, sites):
+    """with-statements lexically enclosing the node, continued through the call sites of the helpers it sits in"""
+    out = enclosing_withs(node)
+    for s_ in sites:
+        out += enclosing_withs(s_)
     return out
 
 
@@ -44,7 +55,9 @@ def cache_entry_points(A):
     eps = []
     for c in fc.all_subclasses():
         for name, f in c.methods.items():
-            calls = [n for n in A.typer.own_nodes(f) if isinstance(n, ast.Call) and isinstance(n.func, ast.Attribute) and n.func.attr in ('load_value', 'save_value')
+            if name.startswith('_'):
+                continue
+            calls = [n for n, o, s_ in A.nodes_with_sites(f) if isinstance(n, ast.Call) and isinstance(n.func, ast.Attribute) and n.func.attr in ('load_value', 'save_value')
                      and isinstance(n.func.value, ast.Name) and n.func.value.id == 'self']
             if calls and f not in [e[0] for e in eps]:
                 eps.append((f, c))
@@ -66,14 +79,14 @@ def run(A, R: Report, thorough: bool):
     for f, ci in eps:
         ctx = Ctx(f, ('inst', ci))
         lw = lock_withs(A, f, ctx)
-        if any(isinstance(n, ast.Call) and isinstance(n.func, ast.Attribute) and n.func.attr in ('acquire', 'release') for n in A.typer.own_nodes(f)):
+        if any(isinstance(n, ast.Call) and isinstance(n.func, ast.Attribute) and n.func.attr in ('acquire', 'release') for n, _o, _s in A.nodes_with_sites(f)):
             R.undecided('R15.1', f.short, 'explicit acquire()/release(): lock regions not tracked', where=where(f))
             continue
         cfg = A.cfg(f)
-        for n in A.typer.own_nodes(f):
+        for n, _owner, sites in A.nodes_with_sites(f):
             if not (isinstance(n, ast.Call) and isinstance(n.func, ast.Attribute) and isinstance(n.func.value, ast.Name) and n.func.value.id == 'self'):
                 continue
-            held = [w for w in enclosing_withs(n) if w in lw]
+            held = [w for w in held_withs(n, sites) if w in lw]
             if n.func.attr == 'save_value':
                 R.check(bool(held), 'R15.1', f'{f.short}: `{src(n)[:50]}`', key_of('unlocked-write', f.short), 'write under the key lock',
                         'the cache file is written without holding the key\'s lock', where=where(f, n))
@@ -90,7 +103,7 @@ def run(A, R: Report, thorough: bool):
                     R.undecided('R15.2', construct, 'no existence test found among the guards of the load', where=where(f, n))
                     continue
                 for e in ex_calls:
-                    ew = [w for w in enclosing_withs(e) if w in lw]
+                    ew = [w for w in held_withs(e, sites) if w in lw]
                     # necessary and sufficient against truncating writers: the load itself holds the key lock
                     # (writers write completely under that lock); the test may sit in the same or an earlier region
                     same = bool(held)
